@@ -79,9 +79,13 @@ pub unsafe fn ordered_try_write(locks: &[&dyn RawLock]) -> bool {
 				if lock.raw_try_write() {
 					locked.set(locked.get() + 1);
 				} else {
-					for lock in &locks[0..i] {
+					// release in reverse, keeping `locked` equal to the number of locks
+					// still held, so that the unwind handler never releases a lock a
+					// second time if one of these unlocks panics
+					for lock in locks[0..i].iter().rev() {
 						// safety: this lock was already acquired
 						lock.raw_unlock_write();
+						locked.set(locked.get() - 1);
 					}
 					return false;
 				}
@@ -108,9 +112,13 @@ pub unsafe fn ordered_try_read(locks: &[&dyn RawLock]) -> bool {
 				if lock.raw_try_read() {
 					locked.set(locked.get() + 1);
 				} else {
-					for lock in &locks[0..i] {
+					// release in reverse, keeping `locked` equal to the number of locks
+					// still held, so that the unwind handler never releases a lock a
+					// second time if one of these unlocks panics
+					for lock in locks[0..i].iter().rev() {
 						// safety: this lock was already acquired
 						lock.raw_unlock_read();
+						locked.set(locked.get() - 1);
 					}
 					return false;
 				}
